@@ -1,28 +1,17 @@
 (* C01 — executable model of the block-wiring core of compiler/cfg_compiler.py.
    Hand-written (tie: X, see props/C01/check.py).  No proofs in this file.
 
-   A row item (`Place` as far as cfg_compiler looks at it) is
+   A row item (`Place` as far as cfg_compiler looks at it) is (CmpBase.var)
      v_name : str(place) as the list of its code points (Python compares str by code point;
               within one row str(place) determines place.id — the harness checks that),
      v_drop : place.ty.droppable,
      v_ty   : an identifier of place.ty.to_hugr(ctx) (types are only compared for equality). *)
 From Coq Require Import ZArith List Bool Lia.
+From V.C01 Require Export CmpBase GenCmp.
 Import ListNotations.
 Open Scope Z_scope.
 
-Record var := mkVar { v_name : list Z; v_drop : bool; v_ty : Z }.
-
-(* ---- Python tuple/str ordering ------------------------------------------------------ *)
-
-(* str < str : lexicographic on code points, a proper prefix is smaller *)
-Fixpoint str_ltb (a b : list Z) : bool :=
-  match a, b with
-  | [], [] => false
-  | [], _ :: _ => true
-  | _ :: _, [] => false
-  | x :: a', y :: b' => if x <? y then true else if y <? x then false else str_ltb a' b'
-  end.
-
+(* str == str *)
 Fixpoint str_eqb (a b : list Z) : bool :=
   match a, b with
   | [], [] => true
@@ -30,19 +19,10 @@ Fixpoint str_eqb (a b : list Z) : bool :=
   | _, _ => false
   end.
 
-(* key of compare_var: (not p.ty.droppable, str(p)); bool order False < True *)
-Definition key := (bool * list Z)%type.
-Definition var_key (v : var) : key := (negb (v_drop v), v_name v).
-
-Definition key_ltb (k1 k2 : key) : bool :=
-  match fst k1, fst k2 with
-  | false, true => true
-  | true, false => false
-  | _, _ => str_ltb (snd k1) (snd k2)
-  end.
-
-(* compare_var p1 p2 = -1 if key p1 < key p2 else 1 (never 0) *)
-Definition compare_var (p1 p2 : var) : Z := if key_ltb (var_key p1) (var_key p2) then -1 else 1.
+(* compare_var p1 p2 = -1 if k1 < k2 else 1 (never 0); the key tuple is GenCmp.key_spec,
+   regenerated from the source on every run *)
+Definition compare_var (p1 p2 : var) : Z :=
+  match lex_cmp key_spec p1 p2 with Lt => -1 | _ => 1 end.
 
 (* functools.cmp_to_key: K(a) < K(b)  iff  cmp(a, b) < 0 *)
 Definition var_ltb (a b : var) : bool := compare_var a b <? 0.
